@@ -7,7 +7,7 @@ from canon import coq_fs, coq_str, coq_z, coq_opt, coq_list, coq_cells, coq_res
 ID = "C06"
 LEVEL = "proof"
 PROPS_FILE = "Props/C06.v"
-EXTRA_PROPS = ("Props/C06Tie.v",)
+EXTRA_PROPS = ("Props/C06Tie.v", "Props/C06TieGetitem.v")
 CORR_VO = "Corr/C06.vo"
 REQUIRE = "From Curtsies Require Import Model.Base Model.Slice Corr.C06."
 CASE_TYPE = "C06.case"
@@ -24,10 +24,15 @@ RULE = ("small scope: every run layout with <= 3 runs of 0..3 characters and eve
         "step (NotImplementedError, model only). observation: per-character (char, attributes) list of the result, "
         "len(result), exception class. non-trivial = an operand has at least one character; distinct = distinct input")
 GENERATORS = ("gen/gen_pure.py",)
-PURE_HELPERS = ('normalize_slice',)
+PURE_HELPERS = ('normalize_slice', 'FmtStr_getitem')
 TRUSTED = [
-    "translator gen/gen_pure.py (dumps the Python AST of normalize_slice node by node into coq/Gen/Pure.v) and the reference "
-    "semantics of that Python subset coq/Spec/PyMini.v, itself run against CPython on enumerated arguments in every check",
+    "translator gen/gen_pure.py (dumps the Python AST of normalize_slice and of FmtStr.__getitem__ / Chunk.s / Chunk.atts / "
+    "Chunk.__len__ node by node into coq/Gen/Pure.v, coq/Gen/PureFmt.v) and the reference semantics of that Python subset "
+    "coq/Spec/PyMini.v (for loops over lists, break, objects as records of instance attributes, local lists with append), "
+    "itself run against CPython on enumerated arguments in every check",
+    "oracles of coq/Spec/PyEnvFmt.v used by the tie of __getitem__: len(fs) = sum of the run lengths (FmtStr.__len__ is memoised: "
+    "attribute assignment is outside the subset), Chunk(s, atts), FmtStr(*parts), fmtstr('') = one empty unformatted run; "
+    "validated against the real methods on enumerated FmtStrs in every check",
     "Coq 8.16.1 kernel incl. vm_compute (no native_compute); Print Assumptions: closed under the global context",
     "reference list semantics coq/Spec/ListOps.v (pyslice = slice.indices for step None, pyindex, repeat, join)",
     "harness canonicaliser harness/canon.py (FmtStr runs -> cells -> Coq literal) and the parser of coqc's answer",
